@@ -224,3 +224,70 @@ Lemma change_scale_f_ok del set e c : change_scale_f false del set e c = (change
 Proof.
   unfold change_scale_f, change_scale. destruct (spec_replicas c) as [old|]; [|reflexivity]. destruct (old =? e); reflexivity.
 Qed.
+
+(* -- Replicas over time: whatever one manager has seen before and however much time has passed, a StatefulSet in the
+      middle of a rolling update is not coordinated -- *)
+Lemma replicas_one_taken now st s : snd (replicas_one now st s) = true -> st_replicas s = st_updated s.
+Proof.
+  unfold replicas_one. destruct (st_replicas s =? st_updated s) eqn:E; cbn [negb]; [intros _; now apply Z.eqb_eq|discriminate].
+Qed.
+
+Lemma replicas_call_taken now : forall l st name,
+  In name (snd (replicas_call now st l)) -> exists s, In s l /\ st_name s = name /\ st_replicas s = st_updated s.
+Proof.
+  induction l as [|s r IH]; intros st name H; cbn [replicas_call] in H; [destruct H|].
+  destruct (replicas_one now st s) as [st1 take] eqn:E1. destruct (replicas_call now st1 r) as [st2 names] eqn:E2.
+  cbn [snd] in H. assert (Hr : In name names -> exists s0, In s0 (s :: r) /\ st_name s0 = name /\ st_replicas s0 = st_updated s0).
+  { intros Hin. destruct (IH st1 name) as [s0 [A B]]; [now rewrite E2|]. exists s0. split; [now right|exact B]. }
+  destruct take; [|now apply Hr]. destruct H as [<-|H]; [|now apply Hr].
+  exists s. split; [now left|]. split; [reflexivity|]. apply (replicas_one_taken now st). now rewrite E1.
+Qed.
+
+Theorem rolling_skipped_always : forall calls now st k names,
+  nth_error (replicas_hist now st calls) k = Some names ->
+  exists dt l, nth_error calls k = Some (dt, l) /\
+    forall name, In name names -> exists s, In s l /\ st_name s = name /\ st_replicas s = st_updated s.
+Proof.
+  induction calls as [|[dt l] r IH]; intros now st k names H; cbn [replicas_hist] in H; [destruct k; discriminate|].
+  destruct (replicas_call (now + dt) st l) as [st1 ns] eqn:E. destruct k as [|k]; cbn [nth_error] in *.
+  - injection H as <-. exists dt, l. split; [reflexivity|]. intros name Hin. apply (replicas_call_taken (now + dt) l st). now rewrite E.
+  - apply (IH _ _ _ _ H).
+Qed.
+
+(* the first call of a fresh manager is the one-call model *)
+Lemma rm_del_all now n st : Forall (fun kv => snd kv = now) st -> Forall (fun kv : string * Z => snd kv = now) (rm_del n st).
+Proof.
+  induction st as [|[k v] r IH]; intros H; cbn; [constructor|]. inversion H as [|? ? Hh Ht].
+  destruct (String.eqb n k); [now apply IH|constructor; [exact Hh|now apply IH]].
+Qed.
+Lemma rm_find_all now n st t : Forall (fun kv : string * Z => snd kv = now) st -> rm_find n st = Some t -> t = now.
+Proof.
+  induction st as [|[k v] r IH]; intros H Hf; cbn in Hf; [discriminate|]. inversion H as [|? ? Hh Ht].
+  destruct (String.eqb n k); [injection Hf as <-; exact Hh|now apply IH].
+Qed.
+Lemma replicas_call_fresh now : forall l st, Forall (fun kv : string * Z => snd kv = now) st ->
+  snd (replicas_call now st l) = map st_name (filter coordinated_first_call l).
+Proof.
+  induction l as [|s r IH]; intros st Hst; cbn [replicas_call filter map]; [reflexivity|].
+  destruct (replicas_one now st s) as [st1 take] eqn:E1.
+  assert (H1 : Forall (fun kv : string * Z => snd kv = now) st1 /\ take = coordinated_first_call s).
+  { unfold replicas_one in E1. unfold coordinated_first_call.
+    destruct (st_replicas s =? st_updated s); cbn [negb andb] in *.
+    - destruct (rm_find (st_name s) st) as [t0|] eqn:Ef.
+      + rewrite Ef in E1. injection E1 as <- <-. split; [exact Hst|].
+        rewrite (rm_find_all now _ _ _ Hst Ef), Z.sub_diag. cbn. destruct (st_ready s =? st_replicas s); reflexivity.
+      + destruct (st_ready s =? st_replicas s) eqn:Er; cbn [negb] in E1.
+        * rewrite Ef in E1. injection E1 as <- <-. now split.
+        * unfold rm_set in E1. cbn [rm_find] in E1. rewrite String.eqb_refl in E1. injection E1 as <- <-.
+          split; [constructor; [reflexivity|now apply rm_del_all]|]. rewrite Z.sub_diag. reflexivity.
+    - injection E1 as <- <-. split; [now apply rm_del_all|reflexivity]. }
+  destruct H1 as [Hst1 ->]. specialize (IH st1 Hst1).
+  destruct (replicas_call now st1 r) as [st2 names]. cbn [snd] in *. rewrite IH.
+  destruct (coordinated_first_call s); reflexivity.
+Qed.
+
+Theorem first_call_is_history l : replicas_hist 0 [] [(0, l)] = [replicas_first_call l].
+Proof.
+  cbn [replicas_hist]. pose proof (replicas_call_fresh (0 + 0) l [] (Forall_nil _)) as H.
+  destruct (replicas_call (0 + 0) [] l) as [st1 names]. cbn [snd] in H. now rewrite H.
+Qed.
